@@ -291,6 +291,8 @@ impl Hash for Num {
             Self::Float(f) => {
                 state.write_u8(0);
                 if f.is_finite() {
+                    // 0.0 and -0.0 are equal, so they have to be hashed the same way
+                    let f = if *f == 0.0 { 0.0 } else { *f };
                     f.to_ne_bytes().hash(state);
                 }
             }
